@@ -29,4 +29,7 @@ func TestS4(t *testing.T) {
 
 		hk.RunSub(t, hk.Sub[CPlan]{Name: "s4/" + impl, Quick: q, Thorough: th, Gen: GenCPlan(impl), Run: RunS4})
 	}
+
+	// first accesses of a re-opened persistent-backed state overlapping its lazy load
+	hk.RunSub(t, hk.Sub[CPlan]{Name: "s4/reopen", Quick: 300, Thorough: 3000, Gen: GenReopenPlan, Run: RunS4})
 }
